@@ -99,6 +99,13 @@ def templates(tier="quick"):
                {"op": "edit", "path": "src", "label": "edit src"}, {"op": "rm", "path": "obj", "label": "rm obj"}]
         add("discovered_" + kind, [v0, v1], ["obj", "exe", "hdr"], extra_ops=ops, init=[0, 1], depth=2, tags=["discovered"])
 
+        # ... and with the object's command line changed in the same edit so that it no longer reads the header: the recorded
+        # list is what *another* command reported, the project is acyclic and has to build (the only cycle is in stale data)
+        v2 = Variant("v2", [Stmt("obj", ex=["src"], ver=1, **kw), Stmt("exe", ex=["obj"]), Stmt("hdr", ex=["obj"])])
+        ops2 = [ninja_op(j=1), {"op": "variant", "to": 1, "label": "manifest:=v2 (hdr now produced from obj, obj's command no longer reads it)"},
+                {"op": "edit", "path": "src", "label": "edit src"}]
+        add("obsolete_discovered_" + kind, [v0, v2], ["obj", "exe", "hdr"], extra_ops=ops2, init=[0, 1], depth=2, tags=["discovered"])
+
     # dyndep-closed cycle: the dyndep file adds an input that depends on the statement itself
     dd = dyndep_text([("out", [], ["circ"], False)])
     stm = [Stmt("dd", ex=["dd.in"], copy=True), Stmt("out", ex=["in"], oo=["dd"], dyndep="dd", extra_reads=["circ"]),
